@@ -23,6 +23,9 @@ func runC12(c *Ctx, r *Report) {
 	// record is decoded into a fresh all-invalid message (obligation 6 of C03, run here too)
 	c03MessageFlows(c, r)
 	// the reference time of a file starts empty: per-file decoder state (perfile.go)
+	// which fields are local times is a fact of the profile table: held against the generator outputs of
+	// the bundled earlier SDK versions
+	kindHistory(c, r, "C12-R6-time-kind-history", map[int]bool{1: true, 2: true}, "a local_date_time field is decoded as UTC seconds (or a UTC timestamp is shifted by the local offset), and Encode writes it the same wrong way")
 	perFileRule(c, r, "C12-R5-per-file-state", []string{"timestamp", "lastTimeOffset"}, "the reference time of the previous file is used for compressed timestamps and local-time offsets of the next file before its own first timestamp")
 	mask, _ := c.constInt(c.fit, "compressedTimeMask")
 	tsNum, _ := c.constInt(c.fit, "fieldNumTimeStamp")
